@@ -142,7 +142,7 @@ class C02(DiffProperty):
         t = case.split()
         hdr, rest = t[:5], t[5:]
         ar = {"send": 1, "part": 1, "fin": 0, "wire": 1, "recv": 0, "drain": 0, "peek": 1, "peekn": 1,
-              "gpush": 1, "gfin": 0, "gflush": 1, "gpoll": 1, "gdisp": 0, "gdrain": 0}
+              "gpush": 1, "gfin": 0, "gflush": 1, "gpoll": 1, "gdisp": 0, "gdrain": 0, "raw": 1}
         ops = []
         i = 0
         while i < len(rest):
